@@ -434,7 +434,7 @@ theorem ro_openObj (s : State) (d : Bool) (r : Nat) (data : Option J) : RO s (op
 leaving contexts of both kinds (with or without a capacity), capacity changes, new objects -/
 def Step.readOnly : Step → Bool
   | .call _ op => op.isRead
-  | .enterObj _ | .exitObj _ | .enterCls _ | .exitCls | .setCap _ | .openObj _ _ _ => true
+  | .enterObj _ | .exitObj _ | .enterCls _ | .exitCls | .setCap _ | .openObj _ _ _ | .setFailing _ => true
   | .ext _ _ | .extDel _ => false
 
 theorem ro_step (s : State) (st : Step) (h : st.readOnly = true) : RO s (step s st) := by
@@ -448,6 +448,7 @@ theorem ro_step (s : State) (st : Step) (h : st.readOnly = true) : RO s (step s 
   | openObj d r data => exact ro_openObj s d r data
   | ext r d => simp [Step.readOnly] at h
   | extDel r => simp [Step.readOnly] at h
+  | setFailing rs => exact RO.of_same rfl rfl rfl rfl rfl
 
 theorem ro_run (steps : List Step) : ∀ s : State, (∀ st ∈ steps, st.readOnly = true) → RO s (run s steps) := by
   induction steps with
